@@ -68,6 +68,10 @@ func ParseOne
       (forall k int :: 0 <= k && k < a ==> isblk(old(reader.rem)[k])) &&
       result0.Source == trimS(p0(p0(old(reader.rem)[a:b], ";"), "(")) &&
       result0.Target == trimS(p1(p1(p0(old(reader.rem)[a:b], ";"), "("), ")")))
+  // the maintainer is what stands between the "--" and the first double blank of the trailer line " -- ..."
+  ensures result1 == nil ==> (exists c int, d int :: 0 <= c && c < d && d <= len(old(reader.rem)) && hasPrefix(old(reader.rem)[c:d], " -- ") &&
+      result0.ChangedBy == trimS(p0(p1(old(reader.rem)[c:d], "--"), "  ")))
+    by { if result1 == nil { assert line#2 == old(reader.rem)[len(old(reader.rem)) - len(at(L3.head, reader.rem)) : len(old(reader.rem)) - len(reader.rem)] } }
   // an entry is returned only after input was consumed
   ensures len(reader.rem) <= len(old(reader.rem))
   ensures result1 == nil ==> len(reader.rem) < len(old(reader.rem))
